@@ -32,7 +32,7 @@ for sid in sys.argv[1:]:
         "harness_errors": [r["check"] for r in rows if r["rc"] == 2],
         "first_report_of_target_check": next((r["first"] for r in rows if r["check"] == prop and r["rc"] == 1), None),
     }
-    for k in ("initially_missed_by_target_check", "strengthened", "patch_note"):
+    for k in ("initially_missed_by_target_check", "strengthened", "patch_note", "undetected"):
         if k in old:
             meta[k] = old[k]
     json.dump(meta, open(f"{d}/meta.json", "w", encoding="utf-8"), indent=1, ensure_ascii=False)
